@@ -584,3 +584,38 @@ def check_dependency_regexes(ctx: Ctx) -> None:
                    "the formatter): " + "; ".join(([amb] if amb else []) + stars) if (amb or stars) else "no exponential shape",
                    f"marko/{rel}:{c.lineno}")
     ctx.require("R-TERM-T3dep", "literal regex patterns in marko", n, 20)
+
+
+# ------------------------------------------------------------------------------ final newline
+def check_result_newline(ctx: Ctx) -> None:
+    """Markdown mode: whatever fill_markdown returns ends with the renderer's output (whose blocks are newline-terminated,
+    R-PREFIX-P6) - on every path, early exits included - and reformat_text hands that value out unchanged."""
+    from ..decide import Decider, role_of
+    from .callback import flatten
+
+    repo, prog = ctx.repo, ctx.prog
+    fm = repo.func("flowmark.linewrapping.markdown_filling:fill_markdown")
+
+    def value_leaf(cur: FuncInfo, e: ast.AST, aliases: frozenset):
+        if isinstance(e, ast.Call) and isinstance(e.func, ast.Attribute) and e.func.attr == "render":
+            return "RENDER"
+        return None
+
+    dec = Decider(prog, lambda _leaf, _al: None, value_leaf=value_leaf, derive=True, opaque={"flowmark.formats.frontmatter:split_frontmatter"})
+    outs = dec.func_outcomes(fm, frozenset())
+    bad = []
+    for v in outs:
+        parts = flatten(v) if v is not None else ()
+        last = parts[-1] if parts else None
+        if not (last == "RENDER" or (type(last) is str and last.endswith("\n"))):
+            bad.append(v)
+    ctx.ob("R-TERM-newline", f"{fm.qual} :: every returned text ends with the rendered document", not bad,
+           "Markdown-mode output must end in a newline: each return value has to end with the renderer's output (or a literal newline); "
+           f"the function can also return {sorted(map(str, bad))}" if bad else f"returns: {sorted(map(str, outs))}", where(fm, fm.node))
+    rt = repo.func("flowmark.reformat_api:reformat_text")
+    flow = prog.flow(rt)
+    for r in flow.cfg.returns():
+        org = origins(prog, rt, r.ast.value, r)
+        ok = bool(org) and all(o[0] == "call" and str(o[1]).endswith((":fill_markdown", ":fill_text")) for o in org)
+        ctx.ob("R-TERM-newline", f"{rt.qual} :: {norm(r.ast)} is the filler's result", ok,
+               "reformat_text must return what fill_markdown / fill_text produced, unchanged; it returns " + ", ".join(str(o) for o in org), where(rt, r))
